@@ -16,7 +16,7 @@ ASSUMPTIONS = [
     'a constant model with a predicate that rejects the empty assignment is not judged (the statement\'s two clauses disagree there)',
 ]
 OUTSIDE = ['more than 3 variables', 'float rounding', 'predicates with side effects']
-BOUNDS = {'quick': {'n': '2 (dense) and 3 (4-5 monomials)', 'B (all_solutions)': 1}, 'thorough': {'n': '3 dense', 'B': 2}}
+BOUNDS = {'quick': {'n': '2 (dense) and 3 (4-5 monomials); raw dicts also with unsorted keys and repeated labels', 'B (all_solutions)': 1}, 'thorough': {'n': '3 dense', 'B': 2}}
 
 VALID = {
     'always': lambda x: True,
